@@ -41,7 +41,7 @@ type ReplayReq struct {
 	// message with its lists lengthened so that a buffer really has to grow)
 	Alt *ReplayReq `json:"alt,omitempty"`
 	// Dirty: reproduced with buffers whose spare capacity holds non-zero bytes (VFRUN_DIRTY=1)
-	Dirty bool `json:"dirty_spare,omitempty"`
+	Dirty string `json:"dirty_spare,omitempty"`
 }
 
 type RunResult struct {
@@ -280,8 +280,8 @@ func runRunner(bin string, steps []map[string]any, timeout time.Duration, memLim
 	}
 	cmd := exec.Command("bash", "-c", sh)
 	cmd.Env = append(os.Environ(), "GORACE=exitcode=0 halt_on_error=0")
-	if runnerDirty {
-		cmd.Env = append(cmd.Env, "VFRUN_DIRTY=1")
+	if runnerDirty != "" {
+		cmd.Env = append(cmd.Env, "VFRUN_DIRTY="+runnerDirty)
 	}
 	raceSeen = false
 	cmd.Stdin = bytes.NewReader(req)
@@ -713,16 +713,18 @@ func confirmViolations(d *Driver, viols []Violation) {
 		if !ok && v.Replay.Judge.Note != "race" && dirtyRelevant(v) {
 			// the model lets the spare capacity of a bytes.Buffer hold arbitrary bytes (a recycled buffer); a fresh
 			// buffer's spare capacity is zero: replay once more with buffers whose spare capacity holds garbage
-			runnerDirty = true
-			for rq := v.Replay; !ok && rq != nil; rq = rq.Alt {
-				res, rerr := runRunner(useBin, rq.Steps, 120*time.Second, 8<<20)
-				if ok2, obs2 := judge(rq.Judge, res, rerr); ok2 {
-					ok, obs = ok2, map[string]any{"buffers_with_dirty_spare_capacity": true, "observed": obs2}
-					v.Replay = rq
-					v.Replay.Dirty = true
+			for _, mode := range []string{"1", "2"} {
+				runnerDirty = mode
+				for rq := v.Replay; !ok && rq != nil; rq = rq.Alt {
+					res, rerr := runRunner(useBin, rq.Steps, 120*time.Second, 8<<20)
+					if ok2, obs2 := judge(rq.Judge, res, rerr); ok2 {
+						ok, obs = ok2, map[string]any{"buffers_with_dirty_spare_capacity": mode, "observed": obs2}
+						v.Replay = rq
+						v.Replay.Dirty = mode
+					}
 				}
 			}
-			runnerDirty = false
+			runnerDirty = ""
 		}
 		v.Observed = obs
 		if ok {
@@ -754,7 +756,7 @@ func replayFile(path string) int {
 		Property string           `json:"property"`
 		Steps    []map[string]any `json:"steps"`
 		Judge    Judge            `json:"judge"`
-		Dirty    bool             `json:"dirty_spare"`
+		Dirty    string           `json:"dirty_spare"`
 	}
 	if err := json.Unmarshal(raw, &doc); err != nil {
 		fmt.Println(err)
@@ -899,7 +901,7 @@ func inflateText(v any, n int) any {
 }
 
 
-var runnerDirty bool
+var runnerDirty string
 
 // dirtyRelevant: every candidate may depend on the bytes behind a buffer's content (the model keeps them unknown)
 func dirtyRelevant(v *Violation) bool { return true }
